@@ -213,10 +213,17 @@ def interp_ctor(program, exclude=(), include=(), dump=(), mfr_excl=(), mfr_incl=
 def attr_names(program, cf):
     """{'exclude_pgns': (numbers attr, ids attr), 'include_pgns': .., 'dump_pgns': .., 'flag': attr}: from the structural reading when there is one,
     else by probing the interpreted constructor with marked lists"""
-    if cf is not None:
+    from . import absint as A
+    try:
+        return _attr_names_probe(program)
+    except (A.Unknown, A.RaiseSignal, AnalysisError):
+        if cf is None or any(len(v) != 2 for v in cf['assigns'].values()):
+            raise AnalysisError('attributes holding the filter lists not identified')
         out = dict(cf['assigns'])
         out['flag'] = cf['flag_attr']
         return out
+
+def _attr_names_probe(program):
     out = {}
     for param, kw in (('exclude_pgns', 'exclude'), ('include_pgns', 'include'), ('dump_pgns', 'dump')):
         probe = interp_ctor(program, **{kw: [424242, 'ZzProbe']})
